@@ -93,7 +93,7 @@ ReadOnly(r) ==
     LET v == IF r.ev = "Lookup" THEN ReadOK(st, r)
              ELSE IF r.ev \in ReadEvents
                   THEN LET exp == ReadExpected(st, r.ev, r.a)
-                       IN [ok |-> r.outcome = "ok" /\ ReadMatches(r.ev, r.a, exp, r.api), expected |-> exp]
+                       IN [ok |-> r.outcome = "ok" /\ ReadMatches(st, r.ev, r.a, exp, r.api), expected |-> exp]
                   ELSE [ok |-> FALSE, expected |-> [unknown |-> r.ev]]
     IN IF v.ok THEN UNCHANGED <<st, skip, bad>>
        ELSE /\ bad' = bad + 1 /\ UNCHANGED <<st, skip>>
